@@ -22,7 +22,7 @@ def _cost(kind):
 
 
 def explore(ctx, run_one, args, bound, max_execs=None, label="", choice_kinds=None,
-            stop_on_violation=False, alt_filter=None):
+            stop_on_violation=True, alt_filter=None):
     stats = {
         "executions": 0,
         "choice_points": 0,
@@ -35,8 +35,10 @@ def explore(ctx, run_one, args, bound, max_execs=None, label="", choice_kinds=No
     buckets = {d: [] for d in range(bound + 1)}
     buckets[0].append(())
     capped = False
+    stopped = False
+    found_here = 0
     for d in range(bound + 1):
-        while buckets[d] and not capped:
+        while buckets[d] and not capped and not stopped:
             frontier, buckets[d] = buckets[d], []
             if max_execs is not None and stats["executions"] + len(frontier) > max_execs:
                 room = max(0, max_execs - stats["executions"])
@@ -58,6 +60,7 @@ def explore(ctx, run_one, args, bound, max_execs=None, label="", choice_kinds=No
                 stats["obs"].add(res.get("obs"))
                 stats["end"].add(res.get("end"))
                 if res.get("violations"):
+                    found_here += len(res["violations"])
                     ctx.merge_violations(res["violations"])
                 for i in range(plen, len(trace)):
                     kind, n, c = trace[i]
@@ -70,11 +73,13 @@ def explore(ctx, run_one, args, bound, max_execs=None, label="", choice_kinds=No
                         if alt_filter is not None and not alt_filter(trace, i, alt):
                             continue
                         buckets[nd].append(tuple(trace[:i]) + ((kind, n, alt),))
-            if stop_on_violation and ctx.violations:
-                capped = True
-        if capped:
+            if stop_on_violation and found_here:
+                stopped = True
+                break
+        if capped or stopped:
             break
         stats["completed_bound"] = d
+    stats["stopped_on_violation"] = stopped
     return stats
 
 
